@@ -9,7 +9,7 @@
     /repo on every run (gen/TmsData.v). *)
 From Coq Require Import ZArith QArith String List Bool.
 From Texel Require Import Tms.Json Tms.Model Tms.ProofsC14 Tms.ProofsC14b Tms.ProofsC14c Tms.F64Ratio.
-From Texel.Gen Require Import ConstsGen TmsData.
+From Texel.Gen Require Import ConstsGen TmsData CliGen.
 Import ListNotations.
 Open Scope Z_scope.
 
@@ -62,6 +62,24 @@ Theorem C14_source_shape :
                         "slices.Max"; "pointindex.DeviationStats"]%string.
 Proof. exact source_shape_lemma. Qed.
 Print Assumptions C14_source_shape.
+
+(** the control flow of validateTileMatrixSet, regenerated statement by statement from main.go: every failed check and
+    every error of IsQuadTree / DeviationStats leaves the function WITH the error (a reject), the deviation warning only
+    logs, and the function accepts at the end — the decision procedure [validate] of Tms/Model.v transcribes exactly
+    these lines.  (A change that, say, only logs the DeviationStats error would let a set without tile matrix 0 pass:
+    that requirement is enforced by nothing else.) *)
+Theorem C14_source_flow :
+  gen_validate_flow =
+  ["if err := pointindex.IsQuadTree(tms); err != nil -> return error";
+   "if len(tileMatrixIDs) == 0 -> return error";
+   "range tileMatrixIDs { if _, exists := tms.TileMatrices[tmID]; !exists -> return error }";
+   "deepestTMID := slices.Max(tileMatrixIDs)";
+   "stats, deviationInUnits, deviationInPixels, err := pointindex.DeviationStats(tms, deepestTMID)";
+   "if err != nil -> return error";
+   "if deviationInPixels >= 1 -> no return";
+   "return nil"]%string.
+Proof. reflexivity. Qed.
+Print Assumptions C14_source_flow.
 
 (** The composite validation adds: some tile matrix is requested, every requested id is a tile matrix of the set,
     and a tile matrix 0 exists. *)
